@@ -89,7 +89,7 @@ theorem cg_step {cfg : Cfg} {k : Hash} {s s' : State} {a : Action}
     (hr : Reach cfg s) (hns : NoSetK k s) (hconf : ConfAgree k s.log) (hs : step cfg s a = some s')
     (h : CG k s) : CG k s' := by
   rcases h with h | h
-  · exact Or.inl ((step_mono hs).2 h)
+  · exact Or.inl ((step_mono hs).2.1 h)
   · exact Or.inr (gone_kstep h (kstep k hr hns hconf hs))
 
 /-- client `t` does not hold a stale store read of `k` -/
